@@ -57,6 +57,52 @@ def small_graphs(limit, rng):
     return out[:limit], total
 
 
+MODS = ["", "alpha", "beta", "util", "alpha::util", "beta::util", "alpha::beta"]
+
+
+def module_files():
+    """Seven modules whose names repeat at different places of the tree (`util`, `alpha::util`, `beta::util`, `beta`,
+    `alpha::beta`), each with the same two recipes: `build p` and `clean p: (build p)`."""
+    shell = 'set shell := ["%s", "-c"]\n' % C.VSH
+    body = lambda m: "build p:\n  [M %s|build|{{p}}]\n\nclean p: (build p)\n  [M %s|clean|{{p}}]\n" % (m, m)
+    return {"justfile": shell + "mod alpha 'alpha.just'\nmod beta 'beta.just'\nmod util 'root_util.just'\n\n" + body(""),
+            "alpha.just": shell + "mod util 'alpha_util.just'\nmod beta 'alpha_beta.just'\n\n" + body("alpha"),
+            "beta.just": shell + "mod util 'beta_util.just'\n\n" + body("beta"),
+            "root_util.just": shell + body("util"), "alpha_util.just": shell + body("alpha::util"),
+            "beta_util.just": shell + body("beta::util"), "alpha_beta.just": shell + body("alpha::beta")}
+
+
+def module_spec(invs):
+    """the statement: once per (recipe - which module's recipe it is -, argument list); the dependency first"""
+    ran, out = set(), []
+
+    def go(m, rcp, a):
+        if (m, rcp, a) in ran:
+            return
+        if rcp == "clean":
+            go(m, "build", a)
+        out.append([m, rcp, a])
+        ran.add((m, rcp, a))
+    for m, rcp, a in invs:
+        go(m, rcp, a)
+    return out
+
+
+def run_modules(invs):
+    import os
+    import subprocess
+    with C.scratch("c01m") as d:
+        for name, text in module_files().items():
+            open(os.path.join(d, name), "w").write(text)
+        logp = os.path.join(d, "vsh.log")
+        env = dict(C.BASE_ENV)
+        env.update({"HOME": d, "TMPDIR": d, "VSH_LOG": logp})
+        argv = [w for m, rcp, a in invs for w in ((m + "::" if m else "") + rcp, a)]
+        p = subprocess.run([C.JUST] + argv, cwd=d, env=env, stdin=subprocess.DEVNULL, stdout=subprocess.PIPE, stderr=subprocess.PIPE, timeout=30)
+        got = [e["argv"][2][3:-1].split("|") for e in C.read_vsh_log(logp) if len(e["argv"]) > 2 and e["argv"][2].startswith("[M ")]
+        return {"argv": argv, "rc": p.returncode, "ran": got, "stderr": p.stderr.decode("utf-8", "replace")[-300:]}
+
+
 def run(report):
     tier = report.tier
     just, bt = C.build_just()
@@ -112,10 +158,23 @@ def run(report):
         if len(samples) < 3 and len(r["events"]) > 6:
             samples.append({"justfile": R.print_prog(c["prog"], c["cfg"]), "argv": R.cmdline(c["cfg"], c["invs"]),
                             "events": r["events"]})
+    # recipes of the same name in modules whose names repeat across the tree: every ordered pair with the same argument
+    # and random longer command lines - each is its own recipe, so each runs once per argument list
+    mrng = C.case_rng(report.seed, 0, "c01-modules")
+    minvs = [[(m1, r1, "x"), (m2, r2, "x")] for m1 in MODS for r1 in ("build", "clean") for m2 in MODS for r2 in ("build", "clean")]
+    minvs += [[(mrng.choice(MODS), mrng.choice(["build", "clean"]), mrng.choice(["x", "x", "y"])) for _ in range(mrng.randint(3, 6))]
+              for _ in range(150 if tier == "quick" else 3000)]
+    for invs, r in zip(minvs, C.pmap(run_modules, minvs)):
+        want = module_spec(invs)
+        if r["rc"] != 0 or r["ran"] != want:
+            report.failure("c01-modules", "recipes of the same name in different modules: ran %s, documented %s" % (r["ran"], want),
+                           {"files": module_files(), "argv": r["argv"], "observed": {"ran": r["ran"], "rc": r["rc"], "stderr": r["stderr"]}, "expected": want})
+            break
+    stats["module_command_lines"] = len(minvs)
     report.coverage.update({
-        "evaluations": len(cases),
+        "evaluations": len(cases) + len(minvs),
         "distinct_nontrivial": len(distinct),
-        "rule": "random acyclic recipe graphs (1-8 recipes, parameters with defaults, diamonds, subsequents, dependency arguments over caller parameters / literals / concatenation / backticks, words with spaces and the empty word) x command lines with repeated invocations, one run in six with --no-deps, one in four with some recipes named through an alias; plus graphs with <=3 recipes over a fixed edge/argument alphabet (sampled from the full space, size in stats). distinct = distinct observed traces",
+        "rule": "random acyclic recipe graphs (1-8 recipes, parameters with defaults, diamonds, subsequents, dependency arguments over caller parameters / literals / concatenation / backticks, words with spaces and the empty word) x command lines with repeated invocations, one run in six with --no-deps, one in four with some recipes named through an alias; plus graphs with <=3 recipes over a fixed edge/argument alphabet (sampled from the full space, size in stats); plus seven modules whose names repeat across the tree (util, alpha::util, beta::util, beta, alpha::beta) with the same two recipes: every ordered pair of invocations and random longer command lines. distinct = distinct observed traces",
         "samples": samples,
         "traces_validated_against_impl": len(cases),
         "stats": stats,
